@@ -469,6 +469,8 @@ class C16(core.Check):
                     r['etag_set'] = rng.choice(['"v1"', '"%s"' % ('e' * 32), 'W/"v1"', '"a,b"', '"x y"'])
                 if rng.random() < .1:
                     r['etag_set'] = None
+                if not r['autotags'] and rng.random() < .3:
+                    r['stream'] = 1
         elif res == 'sdir':
             r['etags'] = rng.choice([0, 1])
             r['autotags'] = r['etags'] and rng.choice([0, 1])
@@ -549,6 +551,11 @@ class C16(core.Check):
             r = self.resource(rng, rng.choice(['file', 'sdir']), n)
             h = rng.choice(['bytes=0-0,%d-%d' % (n - 1, n + 5), 'bytes=-%d' % (n - 1), 'bytes=65535-65536',
                             'bytes=1-%d,0-65536' % (n * 2), self.gen_range(rng, n)])
+            out.append(self.http_case(rng, r, 'GET', 'HTTP/1.1', h, {}, 'big'))
+        # slices longer than the 64 KiB read size of the file generator that end before EOF (single and in lists)
+        for h in ['bytes=0-65999', 'bytes=3000-69000', 'bytes=0-65536', 'bytes=1-65537', 'bytes=0-0,2-66000',
+                  'bytes=100-66100,5-9', 'bytes=-69999', 'bytes=4464-'] * (1 if quick else 3):
+            r = self.resource(rng, rng.choice(['file', 'sdir']), 70000)
             out.append(self.http_case(rng, r, 'GET', 'HTTP/1.1', h, {}, 'big'))
         if not quick:
             out += list(self.exhaustive())
@@ -650,7 +657,7 @@ class C16(core.Check):
                 if CUR['etag_set'] is not None:
                     cherrypy.response.headers['ETag'] = CUR['etag_set']
                 return static.serve_file(CUR['path'], ctype)
-            f0 = f1 = f2 = f
+            f0 = f1 = f2 = f1s = f
 
             @cherrypy.expose
             def g(self):
@@ -666,7 +673,7 @@ class C16(core.Check):
         e1 = {'tools.etags.on': True}
         e2 = {'tools.etags.on': True, 'tools.etags.autotags': True}
         sd = {'tools.staticdir.on': True, 'tools.staticdir.dir': WORKDIR}
-        conf = {'/f1': e1, '/f2': e2, '/g2': e2, '/s0': dict(sd), '/s1': dict(sd, **e1), '/s2': dict(sd, **e2)}
+        conf = {'/f1': e1, '/f1s': dict(e1, **{'response.stream': True}), '/f2': e2, '/g2': e2, '/s0': dict(sd), '/s1': dict(sd, **e1), '/s2': dict(sd, **e2)}
         self.app = wsgi.make_app(Root(), conf)
         self._static = static
         self._orig_boundary = static.make_boundary
@@ -693,6 +700,8 @@ class C16(core.Check):
         lvl = 2 if c['autotags'] else 1 if c['etags'] else 0
         if c['res'] == 'file':
             target = '/f%d' % lvl
+            if lvl == 1 and c.get('stream'):
+                target = '/f1s'         # the same resource with response.stream on: same status, headers and body
         elif c['res'] == 'sdir':
             target = '/s%d/%s' % (lvl, os.path.basename(path))
         else:
@@ -743,7 +752,8 @@ class C16(core.Check):
                 ibody = ibody.replace(b.encode('latin-1'), BOUNDARY.encode('latin-1'))
         if s(cr) != obs['cr']:
             return 'Content-Range: model %r impl %r' % (s(cr), obs['cr'])
-        if s(cl) != obs['cl']:
+        if s(cl) != obs['cl'] and not (c.get('stream') and obs['cl'] is None):
+            # (a streamed response may go out without a Content-Length: finalize does not compute one)
             return 'Content-Length: model %r impl %r' % (s(cl), obs['cl'])
         if s(ct) != ict:
             return 'Content-Type: model %r impl %r' % (s(ct), ict)
